@@ -394,7 +394,7 @@ def make_server_class(env):
 
         def _dst_open(self, path, pflags, attrs_):
             rec = env.remote_rec
-            if rec is None or not (pflags & os.O_WRONLY or pflags & os.O_RDWR):
+            if rec is None or not (pflags & asyncssh.FXF_WRITE):
                 return super().open(path, pflags, attrs_)
             t = rec.thru(path, True)
             try:
@@ -498,7 +498,7 @@ async def run_case(env, sftp, case, k):
         c = ecls(exc)
         if c is None:
             errors.append(exc)
-        rec.add('err', c or 'EOther', getattr(exc, 'dstpath', b'?'))
+        rec.add('err', c or 'EOther', getattr(exc, 'dstpath', b''))      # a glob error has no dstpath
 
     before = snapshot(env.base)
     kw = dict(preserve=case['preserve'], recurse=case['recurse'], follow_symlinks=case['follow'], sparse=False,
@@ -682,8 +682,8 @@ def classify(case, spec_entries):
     return feats
 
 
-def replay_dict(case, out, what_kind):
-    return {'kind': what_kind, 'api': case['api'], 'spec': case['spec'].to_json(),
+def replay_dict(case, out, what_kind, outside=''):
+    return {'kind': what_kind, 'api': case['api'], 'spec': case['spec'].to_json(), 'outside': outside,
             'srcpaths': [p.decode('latin-1') for p in (case['srcpaths'] if isinstance(case['srcpaths'], list) else [case['srcpaths']])],
             'single': not isinstance(case['srcpaths'], list), 'top_dirs': [p.decode('latin-1') for p in case['top_dirs']],
             'preserve': case['preserve'], 'recurse': case['recurse'], 'follow_symlinks': case['follow'],
@@ -806,14 +806,7 @@ def stage_copy(ctx):
                 f'{case["api"]}({case["srcpaths"]!r}, {out["dst"]!r}, recurse={case["recurse"]}, preserve={case["preserve"]}, '
                 f'follow_symlinks={case["follow"]}) from a hostile source changed outside the destination: '
                 f'{out["outside"][:3]!r}; top listing {case["spec"].listing.get(case["top_dirs"][-1])!r}',
-                replay_dict(case, out, kind))
-        # correspondence: glob matches whose basename is '.' or '..' are outside the model's file system
-        dot = case['glob'] is not None and any(
-            posixpath.basename(posixpath.join(case['glob'], nm)) in (b'.', b'..') and nm not in (b'.', b'..')
-            for nm, _p, _t in case['tops'])
-        if dot:
-            ctx.count('copy.glob_dot_basename')
-            continue
+                replay_dict(case, out, kind, env.outside))
         coq_cases.append(case_coq(case, out, delivered))
         coq_idx.append(i)
         if len(ctx.cov['samples']) < 8 and i in (0, 3, len(FIXED) + 1):
@@ -841,6 +834,9 @@ def replay_copy(rp):
     core.setup_paths()
     env = make_env()
     spec = Spec.from_json(rp['spec'])
+    if rp.get('outside'):        # absolute link targets pointed into the scratch directory of the recorded run
+        ob, nb = rp['outside'].encode(), env.outside.encode()
+        spec.target = {k: (nb + v[len(ob):] if v.startswith(ob) else v) for k, v in spec.target.items()}
     srcs = [p.encode('latin-1') for p in rp['srcpaths']]
     case = {'api': rp['api'], 'spec': spec, 'srcpaths': srcs[0] if rp.get('single') else srcs,
             'top_dirs': [p.encode('latin-1') for p in rp['top_dirs']], 'preserve': rp['preserve'],
